@@ -1,8 +1,9 @@
-(* Validity of hands: each of the differently written uniqueness tests is equivalent to NoDup (in
-   conjunction with "not corrupt" for the sort-and-scan form). *)
+(* Validity of hands, exactly: a hand is valid iff every slot is a real card and no two slots are equal
+   (needs the EXACT filter, Proofs/FilterExact.v). *)
 From Coq Require Import Sorting.Permutation.
 From CKC Require Import Base.Prelude Base.Reflect Base.SortN Spec.Layout.
-From CKC Require Import Model.Card Model.Hands Proofs.CardFacts Proofs.SortFacts.
+From CKC Require Import Model.Card Model.Hands Proofs.CardBase Proofs.FilterExact Proofs.SortFacts.
+From CKC Require Export Proofs.ValidReal.
 From CKC Require Import Gen.Consts.
 Open Scope N_scope.
 
@@ -17,53 +18,6 @@ Proof.
       * apply real_cardb_spec. exact E.
       * exfalso. apply H1. intros H. apply real_cardb_spec in H. congruence.
     + intros H. inversion H; subst. split; auto.
-Qed.
-
-Lemma contain_blank_spec ws : contain_blank ws = true <-> In 0 ws.
-Proof.
-  unfold contain_blank. change CN_BLANK with 0. rewrite existsb_exists. split.
-  - intros [x [Hx He]]. apply N.eqb_eq in He. now subst.
-  - intros H. exists 0. split; [exact H | reflexivity].
-Qed.
-
-Lemma RealCard_small w : RealCard w -> w < 2 ^ 29.
-Proof.
-  intros (r & s & Hr & Hs & ->).
-  pose proof (acc_ok_all r s Hr Hs) as H. unfold acc_ok in H. cbv zeta in H.
-  apply andb_true_iff in H. destruct H as [_ H]. apply N.ltb_lt in H. exact H.
-Qed.
-
-(* sizes 2..5: the test as written computes the boolean NoDup *)
-Lemma are_unique_small_nodupb ws : (2 <= length ws <= 5)%nat -> are_unique ws = nodupb ws.
-Proof.
-  intros H.
-  destruct ws as [|a [|b [|c [|d [|e [|f ws]]]]]]; cbn [length] in H; try lia;
-    unfold are_unique; cbn [length].
-  - unfold are_unique2, neq. cbn [nodupb memN existsb].
-    destruct (a =? b); reflexivity.
-  - unfold are_unique3, neq. cbn [nodupb memN existsb].
-    destruct (a =? b), (a =? c), (b =? c); reflexivity.
-  - unfold are_unique4, neq. cbn [nodupb memN existsb].
-    destruct (a =? b), (a =? c), (a =? d), (b =? c), (b =? d), (c =? d); reflexivity.
-  - unfold are_unique5. cbn [existsb nth skipn Nat.sub nodupb].
-    destruct (memN a [b; c; d; e]), (memN b [c; d; e]), (memN c [d; e]), (memN d [e]);
-      reflexivity.
-Qed.
-
-(* sizes 2..5: pairwise clauses / windowed contains, for ANY words *)
-Lemma are_unique_small ws : (2 <= length ws <= 5)%nat -> (are_unique ws = true <-> NoDup ws).
-Proof. intros H. rewrite (are_unique_small_nodupb ws H). apply nodupb_NoDup. Qed.
-
-(* every other size: sort descending and scan from the sentinel u32::MAX *)
-Lemma are_unique_big ws :
-  (length ws < 2 \/ 6 <= length ws)%nat ->
-  (are_unique ws = true <-> NoDup ws /\ Forall (fun x => x < U32MAX) ws).
-Proof.
-  intros H.
-  assert (E : are_unique ws = are_unique_sorted ws).
-  { destruct ws as [|a [|b [|c [|d [|e [|f ws]]]]]]; cbn [length] in H; try lia;
-      unfold are_unique; cbn [length]; reflexivity. }
-  rewrite E. unfold are_unique_sorted. apply strictly_desc_sort_spec.
 Qed.
 
 (* a hand is valid exactly when every slot is a real card and no two slots are equal *)
